@@ -60,6 +60,14 @@ pub fn make_case(r: &mut Sm, idx: usize, exhaustive: Option<(usize, usize)>) -> 
         1 => r.range(1.0, 3.0),
         _ => r.log_range(0.05, 0.8),
     };
+    // degenerate radii: nothing is "within" NaN, 0 or a negative radius; everything is within inf
+    match r.below(40) {
+        0 => params.connection_radius = f64::NAN,
+        1 => params.connection_radius = f64::INFINITY,
+        2 => params.connection_radius = 0.0,
+        3 => params.connection_radius = -diam,
+        _ => {}
+    }
     let n_samples = (r.log_range(1.0, 120.0)) as u64;
     let script = match exhaustive {
         Some((code, depth)) => {
